@@ -1,1 +1,198 @@
-//! Hooks for property C04 (empty until needed).
+//! Hooks for property C04: `Key::encrypt_data`/`decrypt_data` and the file/blob
+//! encode + decode functions of `DecryptBackend`, plus key-file helpers.
+//! Thin wrappers only; errors are mapped to a short class name.
+use std::{num::NonZeroU32, sync::Arc};
+
+use crate::{
+    backend::{
+        FileType, ReadBackend, WriteBackend,
+        decrypt::{DecryptBackend, DecryptReadBackend, DecryptWriteBackend},
+    },
+    crypto::{CryptoKey, aespoly1305::Key, hasher::hash},
+    error::RusticError,
+    id::Id,
+    repofile::{KeyFile, keyfile::find_key_in_backend},
+};
+
+/// error class of a `RusticError` (the distinctions the model makes); looks through the
+/// whole `Caused by` chain as rendered by `Display`
+pub fn classify(err: &RusticError) -> &'static str {
+    let s = err.to_string();
+    if s.contains("Hash mismatch") {
+        "idmismatch"
+    } else if s.contains("MAC check failed") {
+        "mac"
+    } else if err.is_code("C002") {
+        "cred"
+    } else if err.is_code("C003") {
+        "verify"
+    } else if s.contains("too short") {
+        "short"
+    } else if s.contains("zstd") {
+        "zstd"
+    } else if s.contains("not in a supported format") {
+        "unsupported"
+    } else if s.contains("does not match the given length") {
+        "len"
+    } else if s.contains("to u32") {
+        "conv"
+    } else if s.contains("does not exist in backend") {
+        "notfound"
+    } else {
+        "other"
+    }
+}
+
+type R<T> = Result<T, &'static str>;
+
+fn key(k: &[u8]) -> Key {
+    Key::from_slice(k)
+}
+
+/// `Key::encrypt_data` with a 64-byte key
+pub fn encrypt_data(k: &[u8], data: &[u8]) -> R<Vec<u8>> {
+    key(k).encrypt_data(data).map_err(|e| classify(&e))
+}
+
+/// `Key::decrypt_data` with a 64-byte key
+pub fn decrypt_data(k: &[u8], data: &[u8]) -> R<Vec<u8>> {
+    key(k).decrypt_data(data).map_err(|e| classify(&e))
+}
+
+fn dbe(be: Arc<dyn WriteBackend>, k: &[u8], zstd: Option<i32>, extra_verify: bool) -> DecryptBackend<Key> {
+    let mut be = DecryptBackend::new(be, key(k));
+    be.set_zstd(zstd);
+    be.set_extra_verify(extra_verify);
+    be
+}
+
+/// `DecryptBackend::hash_write_full` (= `encrypt_file` + `very_file` + `write_bytes` under the
+/// hash of the stored bytes); the stored bytes are then in `be` under the returned id
+pub fn hash_write_full(
+    be: Arc<dyn WriteBackend>,
+    k: &[u8],
+    zstd: Option<i32>,
+    extra_verify: bool,
+    tpe: FileType,
+    data: &[u8],
+) -> R<Id> {
+    dbe(be, k, zstd, extra_verify)
+        .hash_write_full(tpe, data)
+        .map_err(|e| classify(&e))
+}
+
+/// `DecryptBackend::hash_write_full_uncompressed`
+pub fn hash_write_full_uncompressed(be: Arc<dyn WriteBackend>, k: &[u8], tpe: FileType, data: &[u8]) -> R<Id> {
+    dbe(be, k, None, false)
+        .hash_write_full_uncompressed(tpe, data)
+        .map_err(|e| classify(&e))
+}
+
+/// `DecryptBackend::process_data` (= `encrypt_data` + optional `very_data`)
+pub fn encode_blob(
+    be: Arc<dyn WriteBackend>,
+    k: &[u8],
+    zstd: Option<i32>,
+    extra_verify: bool,
+    data: &[u8],
+) -> R<(Vec<u8>, u32, Option<u32>)> {
+    dbe(be, k, zstd, extra_verify)
+        .process_data(data)
+        .map(|(d, l, ul)| (d, l, ul.map(NonZeroU32::get)))
+        .map_err(|e| classify(&e))
+}
+
+/// `DecryptReadBackend::read_encrypted_from_partial`
+pub fn decode_blob(be: Arc<dyn WriteBackend>, k: &[u8], data: &[u8], ulen: Option<u32>) -> R<Vec<u8>> {
+    dbe(be, k, None, false)
+        .read_encrypted_from_partial(data, ulen.and_then(NonZeroU32::new))
+        .map(|b| b.to_vec())
+        .map_err(|e| classify(&e))
+}
+
+/// `read_encrypted_full` (what `get_file` uses) through a `DecryptBackend` over `be`:
+/// Ok = decrypted/decompressed content, Err = (class, full message)
+pub fn read_encrypted_full(
+    be: Arc<dyn WriteBackend>,
+    k: &[u8],
+    tpe: FileType,
+    id: &Id,
+) -> Result<Vec<u8>, (&'static str, String)> {
+    DecryptBackend::new(be, key(k))
+        .read_encrypted_full(tpe, id)
+        .map(|b| b.to_vec())
+        .map_err(|e| (classify(&e), e.to_string().replace('\n', " ")))
+}
+
+/// blob read through a `DecryptBackend` over `be`
+pub fn read_blob(
+    be: Arc<dyn WriteBackend>,
+    k: &[u8],
+    pack: &Id,
+    offset: u32,
+    length: u32,
+    ulen: Option<u32>,
+) -> Result<Vec<u8>, String> {
+    let dbe = DecryptBackend::new(be, key(k));
+    let data = dbe
+        .read_partial(FileType::Pack, pack, false, offset, length)
+        .map_err(|e| format!("backend:{e}"))?;
+    dbe.read_encrypted_from_partial(&data, ulen.and_then(NonZeroU32::new))
+        .map(|b| b.to_vec())
+        .map_err(|e| classify(&e).to_string())
+}
+
+/// `KeyFile::generate` serialised as it is stored (`add_key_to_repo`), with the id it is stored under
+pub fn keyfile_generate(master: &[u8], pass: &str) -> Result<(Id, Vec<u8>), String> {
+    let kf = KeyFile::generate(key(master), &pass, None, None, false).map_err(|e| e.to_string())?;
+    let data = serde_json::to_vec(&kf).map_err(|e| e.to_string())?;
+    Ok((hash(&data), data))
+}
+
+/// `KeyFile::key_from_password` on a stored key file; Ok = the 64 master key bytes
+pub fn keyfile_open(data: &[u8], pass: &str) -> R<Vec<u8>> {
+    let kf: KeyFile = serde_json::from_slice(data).map_err(|_| "json")?;
+    let k = kf.key_from_password(&pass).map_err(|e| classify(&e))?;
+    let (e, kk, r) = k.to_keys();
+    Ok([e, kk, r].concat())
+}
+
+/// `find_key_in_backend(be, pass, None)`: Ok = (master key bytes, key id)
+pub fn find_key(be: &impl ReadBackend, pass: &str) -> R<(Vec<u8>, Id)> {
+    let (k, id) = find_key_in_backend(be, &pass, None).map_err(|e| classify(&e))?;
+    let (e, kk, r) = k.to_keys();
+    Ok(([e, kk, r].concat(), *id))
+}
+
+/// SHA-256 as used for file ids
+pub fn hash_id(data: &[u8]) -> Id {
+    hash(data)
+}
+
+/// `PackHeader::from_file` through a `DecryptBackend` over `be`:
+/// Ok = (blob id hex, is_tree, offset, length, uncompressed length) per header entry
+pub fn pack_header_from_file(
+    be: Arc<dyn WriteBackend>,
+    k: &[u8],
+    id: &Id,
+    size_hint: Option<u32>,
+    pack_size: u32,
+) -> Result<Vec<(String, bool, u32, u32, Option<u32>)>, (&'static str, String)> {
+    let dbe = DecryptBackend::new(be, key(k));
+    crate::repofile::PackHeader::from_file(&dbe, crate::repofile::PackId::from(*id), size_hint, pack_size)
+        .map(|h| {
+            h.into_blobs()
+                .into_iter()
+                .map(|b| {
+                    (
+                        b.id.to_hex().to_string(),
+                        b.tpe == crate::blob::BlobType::Tree,
+                        b.location.offset,
+                        b.location.length,
+                        b.location.uncompressed_length.map(NonZeroU32::get),
+                    )
+                })
+                .collect()
+        })
+        .map_err(|e| (classify(&e), e.to_string().replace('\n', " ")))
+}
